@@ -64,13 +64,15 @@ struct PreSpec {   // a compact description from which the FilePreamble is built
     int lists = 0;  // list shape selector
     int text = 0;   // text selector
     int ctor = 0;   // construction path
-    std::string str() const { char b[200]; snprintf(b, sizeof b, "maj=%d;min=%d;priv=%d;nsets=%d;sp=%u;cpm=%d;cp=%u;ival=%d;lists=%d;text=%d;ctor=%d", maj, min, priv, nsets, sp_mask, cp_mode, cp_mask, ival, lists, text, ctor); return b; }
-    static PreSpec parse(const std::string& s) { PreSpec p; sscanf(s.c_str(), "maj=%d;min=%d;priv=%d;nsets=%d;sp=%u;cpm=%d;cp=%u;ival=%d;lists=%d;text=%d;ctor=%d", &p.maj, &p.min, &p.priv, &p.nsets, &p.sp_mask, &p.cp_mode, &p.cp_mask, &p.ival, &p.lists, &p.text, &p.ctor); return p; }
+    int alt = 0; uint32_t alt_sp = 0, alt_cp = 0; int alt_cpm = 0;   // alt=1: odd-numbered parameter sets use these member subsets instead (sets that differ in which optional members they carry)
+    std::string str() const { char b[200]; snprintf(b, sizeof b, "maj=%d;min=%d;priv=%d;nsets=%d;sp=%u;cpm=%d;cp=%u;ival=%d;lists=%d;text=%d;ctor=%d;alt=%d;asp=%u;acp=%u;acpm=%d", maj, min, priv, nsets, sp_mask, cp_mode, cp_mask, ival, lists, text, ctor, alt, alt_sp, alt_cp, alt_cpm); return b; }
+    static PreSpec parse(const std::string& s) { PreSpec p; sscanf(s.c_str(), "maj=%d;min=%d;priv=%d;nsets=%d;sp=%u;cpm=%d;cp=%u;ival=%d;lists=%d;text=%d;ctor=%d;alt=%d;asp=%u;acp=%u;acpm=%d", &p.maj, &p.min, &p.priv, &p.nsets, &p.sp_mask, &p.cp_mode, &p.cp_mask, &p.ival, &p.lists, &p.text, &p.ctor, &p.alt, &p.alt_sp, &p.alt_cp, &p.alt_cpm); return p; }
 };
 static const uint64_t IV[] = {0, 1, 23, 24, 255, 256, 65535, 65536, 0xffffffffULL, 0x100000000ULL, 0x7fffffffffffffffULL, 0xffffffffffffffffULL};
 static const char* TX[] = {"", "ascii text", "h\xc3\xa9llo \xe2\x82\xac \xf0\x9f\x98\x80", nullptr};
 
-static BlockParameters spec_bp(const PreSpec& s, int idx) {
+static BlockParameters spec_bp(const PreSpec& s0, int idx) {
+    PreSpec s = s0; if (s0.alt && (idx & 1)) { s.sp_mask = s0.alt_sp; s.cp_mask = s0.alt_cp; s.cp_mode = s0.alt_cpm; }
     BlockParameters bp; auto& sp = bp.storage_parameters;
     uint64_t iv = IV[s.ival % 12];
     sp.ticks_per_second = s.ival ? iv : 1000000; sp.max_block_items = s.ival ? IV[(s.ival + 5) % 12] : 10000;
@@ -218,6 +220,14 @@ int main(int argc, char** argv) {
         // (3) integer boundaries x lists x texts x constructors x number of sets
         for (int iv = 0; iv < 12; iv++) for (int l = 0; l < 5; l++) for (int tx = 0; tx < 4; tx++) { PreSpec s; s.ival = iv; s.lists = l; s.text = tx; s.sp_mask = 127; s.cp_mode = 1; s.cp_mask = 1023; specs.push_back(s); }
         for (int n = 1; n <= 8; n++) for (int ctor = 0; ctor < 4; ctor++) for (int priv : {-1, 0, 7}) for (int cpm = 0; cpm < 2; cpm++) { PreSpec s; s.nsets = n; s.ctor = ctor; s.priv = priv; s.cp_mode = cpm; s.cp_mask = 0x155; s.sp_mask = 0x2a; specs.push_back(s); }
+        // (4) parameter sets that differ in WHICH optional members they carry: member m present in the even sets only / in the odd sets only / missing from one side
+        for (int n : {2, 3, 5}) for (int m = 0; m < 18; m++) for (int pat = 0; pat < 4; pat++) {
+            PreSpec s; s.nsets = n; s.alt = 1; uint32_t spb = m < 7 ? 1u << m : 0, cpb = m >= 7 && m < 17 ? 1u << (m - 7) : 0;
+            if (m == 17) { s.cp_mode = pat & 1; s.alt_cpm = !(pat & 1); s.cp_mask = s.alt_cp = (pat & 2) ? 1023 : 0; s.sp_mask = s.alt_sp = 0; }
+            else { uint32_t all_sp = 127, all_cp = 1023; s.cp_mode = s.alt_cpm = 1;
+                   switch (pat) { case 0: s.sp_mask = spb; s.cp_mask = cpb; s.alt_sp = 0; s.alt_cp = 0; break; case 1: s.sp_mask = 0; s.cp_mask = 0; s.alt_sp = spb; s.alt_cp = cpb; break;
+                                  case 2: s.sp_mask = all_sp; s.cp_mask = all_cp; s.alt_sp = all_sp & ~spb; s.alt_cp = all_cp & ~cpb; break; default: s.sp_mask = all_sp & ~spb; s.cp_mask = all_cp & ~cpb; s.alt_sp = all_sp; s.alt_cp = all_cp; break; } }
+            specs.push_back(s); }
         uint64_t chunk = 128, ntasks = (specs.size() + chunk - 1) / chunk;
         Pool pool(a.jobs, 120);
         pool.run(ntasks, [&](uint64_t ti, Result& R) {
